@@ -758,6 +758,16 @@ func tamper(d delegation.Delegation, sp *TokSpec) (delegation.Delegation, error)
 		m.V = "9.9.9"
 	case "verempty":
 		m.V = ""
+	case "ver0":
+		m.V = "0"
+	case "ver0dot":
+		m.V = "0."
+	case "ver09":
+		m.V = "0.9"
+	case "verlong":
+		m.V = "0.9.1.0.0.0.0.0.0.0.0.0.0.0.0.0"
+	case "verdots":
+		m.V = "..."
 	case "nncempty":
 		e := ""
 		m.Nnc = &e
